@@ -345,10 +345,11 @@ class Algebra:
                 name = expr.__name__
 
             if not symbolic:
-                self.registry[expr] = Registry(name, codegen=expr, algebra=self)
+                registered = Registry(name, codegen=expr, algebra=self)
             else:
-                self.registry[expr] = OperatorDict(name, codegen=expr, algebra=self)
-            return self.registry[expr]
+                registered = OperatorDict(name, codegen=expr, algebra=self)
+            self.registry[expr] = registered
+            return registered
 
         # See if we are being called as @register or @register()
         if expr is None:
